@@ -8,7 +8,7 @@ MANIFEST = dict(
     design='4/C12')
 
 RULE = 'Create/Update/Remove PDR with arbitrary URR lists, URRs shared by PDRs, associations added by Update PDR, Create/Remove/Query URR, deletion; monitor: refcount = #PDRs naming the URR in every state, exact final-report expectation for requests that only remove / re-point PDRs, TERMR / IMMER marks'
-GEN = dict(weights=dict(mod=36, est=16, dele=8, asr=4, usa=6), idpool=(1, 2, 3, 4, 5, 6), p_fail=0.1, big_seids=False)
+GEN = dict(usage_share=0.6, weights=dict(mod=36, est=16, dele=8, asr=4, usa=6), idpool=(1, 2, 3, 4, 5, 6), p_fail=0.1, big_seids=False)
 N_QUICK, N_THOROUGH = 110, 3000
 
 
